@@ -22,7 +22,7 @@ BUDGET = {"quick": 40000, "thorough": 600000}
 RULE = (
     "each run samples a scenario of one operation class - iterator tool, aggregation (async sources of both "
     "kinds and async callables, all suspending), tee with lock (2..3 consumers), lru_cache, cached_property with "
-    "lock (2 awaiters), ExitStack (suspending enters/exits) - and enumerates cancel@c for every suspension point "
+    "lock (2 awaiters), ExitStack (suspending enters/exits), scoped_iter block (optionally nested) - and enumerates cancel@c for every suspension point "
     "c = 1..N of the fault-free execution of the target task; one simulated execution per c. Oracle: the Cancel "
     "instance thrown in is the exception leaving the operation; after the owner closed the iterator it was "
     "advancing: every source closed/exhausted, every SimLock free, ExitStack exits ran exactly once and those "
@@ -33,13 +33,13 @@ COMPONENTS = COMPONENTS_BASE
 ASSUMPTIONS = [
     "sources' own aclose does not suspend in these runs (cancellation during cleanup is a double fault, see DESIGN 9 C18)",
     "the owner of a cancelled iterator closes it (aclose) before sources are judged, as the property states",
-    "scoped_iter blocks under cancellation at every suspension are enumerated by check C08",
+    "scoped_iter blocks with tool applications inside are enumerated under cancellation by check C08 as well",
 ]
 PROBES = ("cancel_in_source", "cancel_in_callable", "cancel_at_lock_wait", "cancel_in_getter", "cancel_in_wrapped",
           "cancel_in_exit_callback", "cancel_in_enter", "cancel_in_block_body", "class_tool", "class_agg",
-          "class_tee", "class_lru", "class_cached_property", "class_exitstack")
+          "class_tee", "class_lru", "class_cached_property", "class_exitstack", "class_scoped_iter")
 NAMES = tuple(n for n in TOOL_NAMES if n not in ("iter_sentinel",)) + AGG_NAMES
-CLASSES = ("op", "op", "op", "tee", "lru", "cprop", "stack")
+CLASSES = ("op", "op", "op", "tee", "lru", "cprop", "stack", "scoped")
 
 
 class Prep:
@@ -80,6 +80,11 @@ def prepare(ch):
         prep.lock_policy = ch.draw(2)
         prep.lock_acq = ch.chance(1, 3)
         prep.second = ch.chance(1, 2)
+    elif prep.cls == "scoped":
+        prep.src = g.src(g.items(ch.between(0, 4)))
+        prep.pre = ch.draw(3)     # block-level suspensions before the first pull
+        prep.between = ch.draw(2)
+        prep.nested = ch.chance(1, 3)
     else:
         n = ch.between(1, 4)
         prep.entries = [(ch.draw(3), ch.between(1, 2), ch.weighted([4, 1, 1])) for _ in range(n)]
@@ -102,7 +107,8 @@ def run_once(prep, st, cancel_at, interrupts):
     sim = new_sim(st, interrupts=False)
     set_interrupts(sim, interrupts)
     info = {"problems": [], "target": None, "reached": False, "leaving": None, "detail": {}}
-    runner = {"op": run_op, "tee": run_tee, "lru": run_lru, "cprop": run_cprop, "stack": run_stack}[prep.cls]
+    runner = {"op": run_op, "tee": run_tee, "lru": run_lru, "cprop": run_cprop, "stack": run_stack,
+              "scoped": run_scoped}[prep.cls]
     runner(prep, st, sim, info, cancel_at)
     return sim, info
 
@@ -200,12 +206,51 @@ def run_tee(prep, st, sim, info, cancel_at):
     info["detail"].update({"source": prep.src.describe(), "children": prep.n, "finished": finished})
     if sim.deadlock or sim.capped:
         return
+    if lock.misuse:
+        info["problems"].append(("C18.lock_misused", ("tee", lock.misuse[0][0]), {"misuse": lock.misuse}))
     if lock.owner is not None or lock.waiters:
         info["problems"].append(("C18.lock_held_after_cancel", ("tee",), {}))
     if any(f is None for f in finished):
         info["problems"].append(("C18.sibling_never_finished", ("tee",), {"finished": finished}))
     if src.must_release and not src.released:
         info["problems"].append(("C18.source_leaked_after_cancel", ("tee",), {}))
+
+
+def run_scoped(prep, st, sim, info, cancel_at):
+    from ..actors import make_async_source
+    world = World(sim, own_log=True)
+    L = lib()
+    src = make_async_source(world, prep.src)
+
+    async def block():
+        try:
+            async with L.scoped_iter(src.obj) as it:
+                for _ in range(prep.pre):
+                    await sim.suspend(PAUSE, None, "body")
+                if prep.nested:
+                    async with L.scoped_iter(it) as inner:
+                        async for _item in L.islice(inner, 1):
+                            pass
+                async for _item in it:
+                    for _ in range(prep.between):
+                        await sim.suspend(PAUSE, None, "body")
+        except Cancel as err:
+            info["leaving"] = err
+            raise
+
+    task = sim.spawn(block())
+    info["target"] = task
+    if cancel_at:
+        sim.cancel_plan[task.id] = cancel_at
+    run_sim(sim)
+    info["detail"].update({"source": prep.src.describe(), "pre": prep.pre, "nested": prep.nested})
+    if sim.deadlock or sim.capped:
+        return
+    fl = prep.src.flavour
+    if fl in ("aiter_cls", "aiterable", "aiter_full") and src.n_aclose != 1:
+        info["problems"].append(("C18.scoped_source_not_closed_exactly_once", ("scoped_iter", "count=%d" % src.n_aclose), {}))
+    elif fl == "agen" and src.agen.ag_frame is not None:
+        info["problems"].append(("C18.scoped_source_not_closed_exactly_once", ("scoped_iter", "count=0"), {}))
 
 
 def run_lru(prep, st, sim, info, cancel_at):
@@ -321,6 +366,9 @@ def run_cprop(prep, st, sim, info, cancel_at):
     if sim.deadlock or sim.capped:
         return
     for lk in sim.locks:
+        if lk.misuse:
+            info["problems"].append(("C18.lock_misused", ("cached_property", lk.misuse[0][0]), {"misuse": lk.misuse}))
+            break
         if lk.owner is not None or lk.waiters:
             info["problems"].append(("C18.lock_held_after_cancel", ("cached_property",), {}))
             break
@@ -492,7 +540,7 @@ def run_prepared(prep, st, ctx):
             out.probes["cancel_in_callable"] = 1
         elif party.lstrip("abc").startswith("s"):
             out.probes["cancel_in_source"] = 1
-    cname = {"op": "class_agg" if getattr(prep, "is_agg", False) else "class_tool", "tee": "class_tee",
+    cname = {"scoped": "class_scoped_iter", "op": "class_agg" if getattr(prep, "is_agg", False) else "class_tool", "tee": "class_tee",
              "lru": "class_lru", "cprop": "class_cached_property", "stack": "class_exitstack"}[prep.cls]
     out.probes[cname] = 1
     out.nontrivial = fired
